@@ -43,7 +43,9 @@ def check_design(ctx, scenset, invariants, sanity):
                                               'invariants': list(invariants), 'actions_never_enabled': dead})
     for dev, inv in sanity:
         # the deviation must break its clause already on the smallest scenario family
-        r2 = m1(ctx, 'wsgitiny' if scenset.startswith('wsgi') else scenset, [inv], deviations=[dev], workers=4)
+        # (deviations of the WSGI transport only show in a WSGI scenario family)
+        wsgi_only = dev in ('CloseBeforeBody', 'NonChunkedStrJoin')
+        r2 = m1(ctx, 'wsgitiny' if scenset.startswith('wsgi') or wsgi_only else scenset, [inv], deviations=[dev], workers=4)
         if r2.violated != inv:
             raise tlc.TlcError('non-vacuity: deviation %s does not violate %s (got %s)' % (dev, inv, r2.violated))
         ctx.coverage.setdefault('nonvacuity', []).append('%s breaks %s' % (dev, inv))
